@@ -94,6 +94,11 @@ func (g *G) c20Rewritten() string {
 func (g *G) c20Marked() string {
 	tag := g.pick("mtag", "div", "section", "ul", "p", "div")
 	var inner string
+	// an inline marked element in the middle of a paragraph (share buttons, inline notes)
+	if g.chance(15, "minline") {
+		m := c20SubOpen + "<span" + c20MarkOpen + g.c20Marker() + c20MarkClose + ">" + g.words(g.intn(2, 25, "minlinew")) + "</span>" + c20SubClose
+		return "<p>" + g.inline(g.intn(20, 60, "minl1")) + " " + m + " " + g.inline(g.intn(20, 60, "minl2")) + "</p>\n"
+	}
 	// a marked subtree that adds no content words, only something visible (an image, a video, an
 	// embed, a data table or link-dense text that is not classified as content)
 	if g.chance(25, "mwordless") {
@@ -165,7 +170,8 @@ func genC20(t *rapid.T) *Case {
 	p.Inline = []wc{{"text", 70}, {"b", 5}, {"em", 5}, {"a", 6}, {"font", 4}, {"ajs1", 4}, {"span", 4}, {"br", 2}}
 	g := newG(t, p)
 	var total int
-	switch g.weighted("wclass", []wc{{"below", 35}, {"boundary", 30}, {"above", 35}}) {
+	wclass := g.weighted("wclass", []wc{{"below", 35}, {"boundary", 30}, {"above", 35}})
+	switch wclass {
 	case "below":
 		total = g.intn(200, 480, "w")
 	case "boundary":
@@ -229,6 +235,12 @@ func genC20(t *rapid.T) *Case {
 	}
 	if wrap != "" {
 		b.WriteString("<" + wrap + ">\n")
+	}
+	if g.chance(map[string]int{"boundary": 50}[wclass]+15, "minified") {
+		// a minified page: no white space between the elements
+		for i := range blocks {
+			blocks[i] = strings.ReplaceAll(blocks[i], ">\n", ">")
+		}
 	}
 	b.WriteString(strings.Join(blocks, ""))
 	if wrap != "" {
